@@ -194,9 +194,6 @@ def applyActivation (m : Mem) (ctx : Ctx) (b : BlockOp) (v : Int) : Except Strin
     return if b.ofm.signed then toSigned raw 8 else raw
   throw s!"unsupported:activation{act}"
 
-def oh0 (b : BlockOp) : Nat := b.ofm.height
-def ow0 (b : BlockOp) : Nat := b.ofm.width
-
 def execBlock (m : Mem) (ctx : Ctx) (b : BlockOp) (regs : RegFile) (w : Option Weights) : Except String Mem := do
   if b.upscale > 2 then throw "reserved upscale mode"
   if b.upscale ≠ 0 ∧ b.kind == .elementwise then throw "unsupported:upscale-elementwise"
@@ -211,8 +208,8 @@ def execBlock (m : Mem) (ctx : Ctx) (b : BlockOp) (regs : RegFile) (w : Option W
   -- IFM upscaling: the window runs over a 2x upscaled image. NEAREST replicates every element 2x2, TRANSPOSE
   -- puts the element at the even position and elements that contribute nothing (the zero point) elsewhere.
   -- The extent of the upscaled image is what the OFM extent, kernel, stride and padding imply.
-  let upH := if b.upscale = 0 then H0 else (oh0 b - 1) * b.strideY + b.kernelH - b.padTop - b.padBottom
-  let upW := if b.upscale = 0 then W0 else (ow0 b - 1) * b.strideX + b.kernelW - b.padLeft - b.padRight
+  let upH := if b.upscale = 0 then H0 else (b.ofm.height - 1) * b.strideY + b.kernelH - b.padTop - b.padBottom
+  let upW := if b.upscale = 0 then W0 else (b.ofm.width - 1) * b.strideX + b.kernelW - b.padLeft - b.padRight
   if b.upscale ≠ 0 ∧ ((upH + 1) / 2 ≠ H0 ∨ (upW + 1) / 2 ≠ W0) then throw "upscaled extent inconsistent with the IFM extent"
   let H := upH
   let W := upW
